@@ -125,6 +125,8 @@ func (e *netEnv) ntsVariants(r *lib.Rng) [][]byte {
 func (g *gen) genListeners() {
 	e := setupNet()
 	r := g.r
+	// most crafted client cases end with an honest answer, so that the call returns at once
+	hf := func() string { return lib.Bool(r.Intn(8) != 0) }
 	// ---- IP listener ----
 	vars := e.ntsVariants(r)
 	nhist := g.n(40, 400)
@@ -249,6 +251,13 @@ func (g *gen) genListeners() {
 	for _, ul := range []uint16{0, 7, 8, 55, 56, 57, 1000, 65535} {
 		ul := ul
 		addSpec(scionPort, "udplen", base(), ntpReq, func(b []byte) { binary.BigEndian.PutUint16(b[len(b)-48-4:], ul) })
+	}
+	// ... together with an authenticator option whose MAC is computed over buf[len(buf)-udpLength:]
+	for _, ul := range []uint16{0, 8, 56, 57, 200, 1000, 65535} {
+		ul := ul
+		h := base()
+		h.e2e = []*slayers.EndToEndOption{{OptType: slayers.OptTypeAuthenticator, OptData: authData(28)}}
+		addSpec(scionPort, "udplenauth", h, ntpReq, func(b []byte) { binary.BigEndian.PutUint16(b[len(b)-48-4:], ul) })
 	}
 	for _, dp := range []uint16{0, 30041, 10124, 65535} {
 		h := base()
@@ -407,7 +416,7 @@ func (g *gen) genListeners() {
 				rs = append(rs, resp(r.Intn(2), g.mutate(hon)))
 			}
 		}
-		g.add("cli.ip", "nt", lib.V(lib.L(rs...), lib.I(int64(r.Intn(2)))))
+		g.add("cli.ip", "nt", lib.V(lib.L(rs...), hf()))
 	}
 	// ---- IP client with NTS: key exchange and replies that carry cookies of every size ----
 	il := func(xs ...int) string {
@@ -438,10 +447,10 @@ func (g *gen) genListeners() {
 	okS, okF := csptpSync(0), csptpFollowUp(0, 0x73, 1)
 	for l := 0; l <= len(okF); l += lib.Pick(r, 1, 2, 3) {
 		m := clone(okF[:l])
-		g.add("cli.csptp", "nt,trunc", lib.V(lib.L(cs(320, m, 0)), lib.I(int64(r.Intn(2)))))
+		g.add("cli.csptp", "nt,trunc", lib.V(lib.L(cs(320, m, 0)), hf()))
 		if l >= 4 {
 			binary.BigEndian.PutUint16(m[2:], uint16(l))
-			g.add("cli.csptp", "nt,trunclen", lib.V(lib.L(cs(320, m, 0), cs(319, m, 0)), lib.I(int64(r.Intn(2)))))
+			g.add("cli.csptp", "nt,trunclen", lib.V(lib.L(cs(320, m, 0), cs(319, m, 0)), hf()))
 		}
 	}
 	for i := 0; i < g.n(30, 400); i++ {
@@ -453,7 +462,7 @@ func (g *gen) genListeners() {
 			}
 			sc = append(sc, cs(lib.Pick(r, 319, 320), b, r.Intn(2)))
 		}
-		g.add("cli.csptp", "nt,mut", lib.V(lib.L(sc...), lib.I(int64(r.Intn(2)))))
+		g.add("cli.csptp", "nt,mut", lib.V(lib.L(sc...), hf()))
 	}
 	// ---- SCION client ----
 	rec := func(items ...string) string { return lib.L(items...) }
@@ -464,7 +473,7 @@ func (g *gen) genListeners() {
 		return d
 	}
 	addC := func(tag string, auth int, recs ...string) {
-		g.add("cli.scion", "nt,"+tag, lib.V(lib.L(recs...), lib.I(int64(auth)), lib.I(int64(r.Intn(2)))))
+		g.add("cli.scion", "nt,"+tag, lib.V(lib.L(recs...), lib.I(int64(auth)), hf()))
 	}
 	for _, t := range []int{1, 2, 3, 4, 5, 6, 7} {
 		raw := r.Bytes(4 * ((t & 3) + 1))
@@ -508,6 +517,9 @@ func (g *gen) genListeners() {
 	}
 	for _, ul := range []int{0, 7, 8, 55, 57, 1000, 65535} {
 		addC("udplen", 0, rec("4", lib.I(int64(ul))))
+	}
+	for _, ul := range []int{0, 8, 56, 57, 200, 1000, 65535} {
+		addC("udplenauth", 1, rec("5", lib.B(sAuth(28)), lib.I(int64(ul))))
 	}
 	for i := 0; i < g.n(20, 300); i++ {
 		addC("raw", r.Intn(2), rec("0", lib.B(r.Bytes(r.Intn(200)))), rec("2", "253", lib.B(g.mutate(lib.Pick(r, tsOpts...))), "-1"))
